@@ -54,7 +54,7 @@ class C22(EngineACheck):
         with enginea.ProgramSession(prog) as sess:
             # Reference: fault-free execution of the same schedule on an empty backend.
             db0 = schedsim.fresh_db("base.db")
-            base, f0 = histsim.run_with_faults(sched_seed, prog, db0, sess)
+            base, f0 = histsim.run_with_faults(sched_seed, prog, db0, sess, ns=1000)
             self.fill(out, base.world, prog, extra_key="base")
             if base.outcome[0] == "abort":
                 out.probe("aborted_runs")
@@ -123,7 +123,8 @@ class C22(EngineACheck):
                 rep = 1 + ch.choice(3, "repeat")
                 db = schedsim.fresh_db("err.db")
                 res, f = histsim.run_with_faults(
-                    sched_seed, prog, db, sess, plan=DbFaultPlan(error_at_stmt=j, error_repeat=rep))
+                    sched_seed, prog, db, sess, ns=1000,
+                    plan=DbFaultPlan(error_at_stmt=j, error_repeat=rep))
                 if not f.errors_raised:
                     continue
                 out.fault("transient_operational_error", f.errors_raised)
